@@ -75,6 +75,33 @@ func (o *oracle) onTemp(cur, at string, f func(tmp string)) error {
 
 func (o *oracle) chance(num, den int, all bool) bool { return all || o.r.Chance(num, den) }
 
+// dropsColumnBeforeKey: does some table have, in the parent, a column declared before `pk` that the
+// commit no longer has?
+func dropsColumnBeforeKey(parent, commit []*table) bool {
+	for _, pt := range parent {
+		ct := findTable(commit, pt.Name)
+		if ct == nil {
+			continue
+		}
+		for _, l := range strings.Split(pt.Create, "\n")[1:] {
+			m := colLineRe.FindStringSubmatch(l)
+			if m == nil || m[1] == "pk" {
+				break
+			}
+			found := false
+			for _, c := range ct.Cols {
+				if c.Name == m[1] {
+					found = true
+				}
+			}
+			if !found {
+				return true
+			}
+		}
+	}
+	return false
+}
+
 // pickCommit picks a known commit id with exactly one parent (not the root).
 func (o *oracle) pickCommit(st *mstate, newest bool) (int, bool) {
 	var c []int
@@ -126,7 +153,21 @@ func (o *oracle) after(line, res string, pre, st *mstate, kc kase, all bool) boo
 					o.rep.Violate("C31/cherry-pick-onto-own-parent/error", fmt.Sprintf("cherry-pick of commit %d onto its own parent failed: %v", c, r.Err), kc)
 					return
 				}
-				got, _ := im.readRoot("HEAD")
+				got, gerr := im.readRoot("HEAD")
+				if dropsColumnBeforeKey(par, want) {
+					ok := gerr == nil
+					if ok {
+						ok, _ = rootEq(got, want, true)
+					}
+					if !ok {
+						o.rep.Known("C31/cherry-pick/drop-column-before-key", fmt.Sprintf("cherry-picking commit %d, which drops the column declared before the primary key, onto its own parent corrupts the table (key and values swapped, PRIMARY KEY moved): %v", c, gerr), kc)
+					}
+					return
+				}
+				if gerr != nil {
+					o.rep.Violate("C31/cherry-pick-onto-own-parent/unreadable", fmt.Sprintf("after cherry-picking commit %d onto its own parent HEAD cannot be read: %v", c, gerr), kc)
+					return
+				}
 				o.rep.Hit("oracle/C31/own-parent")
 				if ok, why := rootEq(got, want, true); !ok {
 					if ok2, _ := rootEq(normCols(got), normCols(want), false); ok2 {
@@ -192,6 +233,9 @@ func (o *oracle) after(line, res string, pre, st *mstate, kc kase, all bool) boo
 	// ---------------- C33
 	if own("C33") && (replay || o.chance(30, 100, false)) {
 		o.asOfAll(st, kc)
+	}
+	if own("C33") && len(st.H) > 0 && (replay || o.chance(6, 100, false)) {
+		o.rebuildAndRename(st, kc)
 	}
 	_ = weight
 
@@ -333,8 +377,15 @@ func (o *oracle) mergeDef(kind, ref string, pre, st *mstate, kc kase) {
 	for _, t := range theirs {
 		names[t.Name] = true
 	}
+	for _, t := range got {
+		names[t.Name] = true
+	}
 	for n := range names {
 		bt, ot, tt, gt := findTable(base, n), findTable(oRoot, n), findTable(theirs, n), findTable(got, n)
+		if bt == nil && ot == nil && tt == nil && gt != nil {
+			o.rep.Violate("C31/"+strings.TrimSuffix(kind, "A")+"-def/extra-table", fmt.Sprintf("%s %s: the new commit contains table %s which neither HEAD, the commit nor its parent has (an untracked table was committed)", kind, ref, n), kc)
+			continue
+		}
 		want, ok := merge3Brute(bt, ot, tt)
 		if !ok {
 			o.rep.Hit("oracle/C31/merge-def/not-applicable")
@@ -876,14 +927,8 @@ func (o *oracle) asOfAll(st *mstate, kc kase) {
 		}
 		var got []string
 		for _, rr := range r.Rows {
-			cells := []string{}
-			for i, c := range r.Cols {
-				if c == "pk" || c == "commit_hash" || c == "committer" || c == "commit_date" {
-					continue
-				}
-				cells = append(cells, wireCell(rr[i]))
-			}
-			got = append(got, rr[0]+"="+strings.Join(cells, ","))
+			pk, cells := splitRow(r.Cols, rr)
+			got = append(got, pk+"="+strings.Join(cells, ","))
 		}
 		var exp []string
 		_ = inScope // a commit_hash filter resolves any commit, also outside the current branch's ancestry
@@ -904,6 +949,99 @@ func (o *oracle) asOfAll(st *mstate, kc kase) {
 			o.rep.Violate("C33/history/data", fmt.Sprintf("dolt_history_%s WHERE commit_hash = commit %d returns %v, the table held %v", wt.Name, id, got, exp), kc)
 		}
 	}
+}
+
+// rebuildAndRename (on a temporary branch, no model involved): a table rebuilt under another name and
+// renamed back (same definition, same rows, new column tags), and a plainly renamed table.  Afterwards
+// the history table filtered to the commit *before* the change must still return the rows the table of
+// that name held there (nothing for a name that did not exist), and AS OF must agree.
+func (o *oracle) rebuildAndRename(st *mstate, kc kase) {
+	im := o.im
+	head := im.hashes[st.branches[st.cur]]
+	var cands []*table
+	hroot, err := im.readRoot(head)
+	if err != nil {
+		return
+	}
+	for _, t := range hroot {
+		if len(t.Rows) > 0 {
+			cands = append(cands, t)
+		}
+	}
+	if len(cands) == 0 {
+		return
+	}
+	t := hx.Pick(o.r, cands)
+	var rowsWant []string
+	for _, rw := range t.Rows {
+		rowsWant = append(rowsWant, fmt.Sprintf("%d=%s", rw.PK, strings.Join(rw.Cells, ",")))
+	}
+	hist := func(name, commit string) ([]string, error) {
+		r := im.q(fmt.Sprintf("select * from `dolt_history_%s` where commit_hash = '%s' order by pk", name, commit))
+		if r.Err != nil {
+			return nil, r.Err
+		}
+		var got []string
+		for _, rr := range r.Rows {
+			pk, cells := splitRow(r.Cols, rr)
+			got = append(got, pk+"="+strings.Join(cells, ","))
+		}
+		return got, nil
+	}
+	o.onTemp(st.cur, head, func(string) {
+		def := t.Create
+		i := strings.Index(def, "(")
+		stmts := []string{
+			"CREATE TABLE `zz_new` " + def[i:],
+			fmt.Sprintf("insert into `zz_new` select * from `%s`", t.Name),
+			fmt.Sprintf("drop table `%s`", t.Name),
+			fmt.Sprintf("rename table `zz_new` to `%s`", t.Name),
+			"call dolt_commit('-Am', 'zz rebuild')",
+		}
+		for _, q := range stmts {
+			if r := im.q(q); r.Err != nil {
+				o.rep.Hit("oracle/C33/rebuild-unavailable")
+				return
+			}
+		}
+		o.rep.Hit("oracle/C33/rebuild")
+		got, err := hist(t.Name, head)
+		if err != nil {
+			o.rep.Violate("C33/history/error", fmt.Sprintf("dolt_history_%s after a rebuild failed: %v", t.Name, err), kc)
+			return
+		}
+		if strings.Join(got, ";") != strings.Join(rowsWant, ";") {
+			o.rep.Violate("C33/history/rebuilt-table", fmt.Sprintf("table %s was rebuilt under another name and renamed back; dolt_history_%s WHERE commit_hash = <commit before the rebuild> returns %v, the table held %v", t.Name, t.Name, got, rowsWant), kc)
+		}
+		if at, err := im.readTable(head, t.Name); err != nil || showTable(at) != showTable(t) {
+			o.rep.Violate("C33/as-of/rebuilt-table", fmt.Sprintf("AS OF the commit before the rebuild of %s does not return the recorded table", t.Name), kc)
+		}
+		// plain rename
+		for _, q := range []string{fmt.Sprintf("rename table `%s` to `zz_r`", t.Name), "call dolt_commit('-Am', 'zz rename')"} {
+			if r := im.q(q); r.Err != nil {
+				o.rep.Hit("oracle/C33/rename-unavailable")
+				return
+			}
+		}
+		o.rep.Hit("oracle/C33/rename")
+		if got, err := hist("zz_r", head); err == nil && len(got) != 0 {
+			o.rep.Violate("C33/history/renamed-table", fmt.Sprintf("dolt_history_zz_r WHERE commit_hash = <commit before the rename> returns %v although no table of that name existed there", got), kc)
+		}
+		if got, err := hist("zz_r", "HEAD"); err == nil {
+			r := im.q("select hashof('HEAD')")
+			if r.Err == nil {
+				if got2, err2 := hist("zz_r", unq(r.Rows[0][0])); err2 == nil {
+					got = got2
+				}
+			}
+			if strings.Join(got, ";") != strings.Join(rowsWant, ";") {
+				o.rep.Violate("C33/history/renamed-table", fmt.Sprintf("dolt_history_zz_r at the rename commit returns %v, the table holds %v", got, rowsWant), kc)
+			}
+		}
+		if at, err := im.readTable(head, t.Name); err != nil || showTable(at) != showTable(t) {
+			o.rep.Violate("C33/as-of/renamed-table", fmt.Sprintf("AS OF the commit before the rename no longer returns table %s", t.Name), kc)
+		}
+	})
 }
 
 func ancestors(st *mstate, id int) []int {
@@ -955,11 +1093,8 @@ func (o *oracle) revDB(rev, want string, id int, kc kase) error {
 		}
 		var got []string
 		for _, x := range rr.Rows {
-			cells := make([]string, len(x)-1)
-			for i, v := range x[1:] {
-				cells[i] = wireCell(v)
-			}
-			got = append(got, x[0]+"="+strings.Join(cells, ","))
+			pk, cells := splitRow(rr.Cols, x)
+			got = append(got, pk+"="+strings.Join(cells, ","))
 		}
 		var exp []string
 		for _, rw := range wt.Rows {
@@ -1056,6 +1191,32 @@ func (o *oracle) checkoutMove(b, res string, pre, st *mstate, kc kase) {
 	}
 	for _, t := range pre.H {
 		names[t.Name] = true
+	}
+	// staged changes must be carried as well
+	if sroot, err := im.readRoot("STAGED"); err == nil {
+		sn := map[string]bool{}
+		for _, t := range pre.S {
+			sn[t.Name] = true
+		}
+		for _, t := range pre.H {
+			sn[t.Name] = true
+		}
+		for n := range sn {
+			ps, ph := findTable(pre.S, n), findTable(pre.H, n)
+			if (ps == nil) == (ph == nil) && (ps == nil || showTable(ps) == showTable(ph)) {
+				continue
+			}
+			ns := findTable(sroot, n)
+			if (ns == nil) == (ps == nil) && (ns == nil || showTable(ns) == showTable(ps)) {
+				continue
+			}
+			what := fmt.Sprintf("checkout %s succeeded but the STAGED change to table %s was not carried over (and the source working set was reset)", b, n)
+			if ps == nil {
+				o.rep.Known("C34/checkout/dropped-table-lost", what+": the table was dropped and reappears", kc)
+			} else {
+				o.rep.Violate("C34/checkout/staged-change-lost", what, kc)
+			}
+		}
 	}
 	for n := range names {
 		pw, ph := findTable(pre.W, n), findTable(pre.H, n)
@@ -1177,11 +1338,17 @@ func abstractStmt(s string) string {
 	}
 	if m := reInsert.FindStringSubmatch(s); m != nil {
 		vals := splitSQLList(m[3])
+		names := strings.Split(m[2], ",")
 		cells := make([]string, 0, len(vals))
-		for _, v := range vals[1:] {
+		pk := ""
+		for i, v := range vals {
+			if i < len(names) && strings.Trim(names[i], "` ") == "pk" {
+				pk = strings.TrimSpace(v)
+				continue
+			}
 			cells = append(cells, litToCell(v))
 		}
-		return fmt.Sprintf("I:%s:%s:%s", m[1], strings.TrimSpace(vals[0]), strings.Join(cells, ","))
+		return fmt.Sprintf("I:%s:%s:%s", m[1], pk, strings.Join(cells, ","))
 	}
 	if m := reUpdate.FindStringSubmatch(s); m != nil {
 		var sets []string
@@ -1325,14 +1492,8 @@ func (rn *runner) queries(im *impl, st *mstate, kc kase, all bool) bool {
 		if hr.Err == nil {
 			var p []string
 			for _, rr := range hr.Rows {
-				cells := []string{}
-				for i, cn := range hr.Cols {
-					if cn == "pk" || cn == "commit_hash" || cn == "committer" || cn == "commit_date" {
-						continue
-					}
-					cells = append(cells, wireCell(rr[i]))
-				}
-				p = append(p, rr[0]+"="+strings.Join(cells, ","))
+				pk, cells := splitRow(hr.Cols, rr)
+				p = append(p, pk+"="+strings.Join(cells, ","))
 			}
 			iresp = "ok " + strings.Join(p, ";")
 		}
@@ -1350,6 +1511,9 @@ func (rn *runner) queries(im *impl, st *mstate, kc kase, all bool) bool {
 func witnesses(rn *runner) {
 	var ops []string
 	switch rn.prop {
+	case "C31":
+		// cherry-picking a commit that drops the column declared before the key corrupts the table
+		ops = []string{"create v pk@1 c1:int c2:int", "ins v 6 i2 i-4", "commitA " + hexS("w1"), "dropcol v c1", "upd v 6 c2 i7", "ins v 0 N", "commitA " + hexS("w2")}
 	case "C34":
 		ops = []string{"create t c1:int", "ins t 1 i1", "create u c1:int", "commitA " + hexS("w1"), "branch b1 H",
 			"droptable u", "checkoutmove b1",
